@@ -69,6 +69,48 @@ func asJSONTok(v Value) (*jval, bool) {
 	return t.V, true
 }
 
+// jsonFirstByte: the first byte of the JSON text a tree stands for (no leading white space, as
+// Marshal and RawMessage decoding produce it): determined by the kind, for numbers by the sign
+// (the leading digit of a non-negative number is an unconstrained digit).
+func (in *Interp) jsonFirstByte(v *jval) *smt.Term {
+	tb := in.tb
+	in.noteUsed("first byte of abstract JSON text")
+	if v == nil {
+		return tb.BV(8, 'n')
+	}
+	switch v.k {
+	case jNull:
+		return tb.BV(8, 'n')
+	case jBool:
+		return tb.Ite(v.b, tb.BV(8, 't'), tb.BV(8, 'f'))
+	case jStr:
+		return tb.BV(8, '"')
+	case jArr:
+		return tb.BV(8, '[')
+	case jObj:
+		return tb.BV(8, '{')
+	}
+	// number
+	var neg *smt.Term
+	switch {
+	case v.isFloat:
+		// sign bit set and not a zero of either sign printed without sign... json prints -0 as "-0"
+		neg = tb.Eq(tb.Extract(v.num, v.num.W-1, v.num.W-1), tb.BV(1, 1))
+	case v.signed:
+		neg = tb.Cmp(smt.OpSlt, v.num, tb.BV(v.num.W, 0))
+	default:
+		neg = tb.False
+	}
+	var digit *smt.Term
+	if in.p != nil {
+		digit = in.nondet("json.leading_digit", "u8", 8)
+		in.addPC(tb.And(tb.Cmp(smt.OpUle, tb.BV(8, '0'), digit), tb.Cmp(smt.OpUle, digit, tb.BV(8, '9'))))
+	} else {
+		digit = tb.BV(8, '1')
+	}
+	return tb.Ite(neg, tb.BV(8, '-'), digit)
+}
+
 type jsonTag struct {
 	name      string
 	omitempty bool
